@@ -73,19 +73,46 @@ type Case struct {
 type assetDef struct {
 	name string
 	id   crypto.Hash
-	info [2]*common.Asset
+	info []*common.Asset // 0 canonical; 1 another key; 2 lower case; 3 upper case; 4 one letter's case flipped; 5 another chain; 6 a trailing byte
+}
+
+func flipOne(key string) string {
+	b := []byte(key)
+	for i := len(b) - 1; i >= 0; i-- {
+		switch {
+		case b[i] >= 'a' && b[i] <= 'z':
+			b[i] -= 32
+			return string(b)
+		case b[i] >= 'A' && b[i] <= 'Z':
+			b[i] += 32
+			return string(b)
+		}
+	}
+	return key + "x"
 }
 
 func assets() []assetDef {
 	custom := crypto.Blake3Hash([]byte("verif-c16-custom-asset"))
-	mk := func(chain crypto.Hash, key string) [2]*common.Asset {
-		return [2]*common.Asset{{Chain: chain, AssetKey: key}, {Chain: chain, AssetKey: key + "-other"}}
+	erc20 := crypto.Blake3Hash([]byte("verif-c16-erc20-asset"))
+	mk := func(chain crypto.Hash, key string) []*common.Asset {
+		other := common.BitcoinAssetId
+		if chain == other {
+			other = common.EthereumAssetId
+		}
+		return []*common.Asset{{Chain: chain, AssetKey: key}, {Chain: chain, AssetKey: key + "-other"},
+			{Chain: chain, AssetKey: strings.ToLower(key)}, {Chain: chain, AssetKey: strings.ToUpper(key)},
+			{Chain: chain, AssetKey: flipOne(key)}, {Chain: other, AssetKey: key}, {Chain: chain, AssetKey: key + "0"}}
 	}
+	xin := mk(common.XINAsset.Chain, common.XINAsset.AssetKey)
+	xin[0] = common.XINAsset
+	xin[1] = &common.Asset{Chain: common.EthereumAssetId, AssetKey: "0xother"}
 	return []assetDef{
-		{"XIN", common.XINAssetId, [2]*common.Asset{common.XINAsset, {Chain: common.EthereumAssetId, AssetKey: "0xother"}}},
+		{"XIN", common.XINAssetId, xin},
 		{"BTC", common.BitcoinAssetId, mk(common.BitcoinAssetId, "c6d0c728-2624-429b-8e0d-d9d19b6592fa")},
 		{"SOL", common.SOLAssetId, mk(common.SOLAssetId, "11111111111111111111111111111111")},
 		{"CUSTOM", custom, mk(common.EthereumAssetId, "0xcustom")},
+		// a checksummed (mixed case) ERC20 contract address as asset key
+		{"ERC20", erc20, mk(common.EthereumAssetId, "0xdAC17F958D2ee523a2206206994597C13D831ec7")},
 	}
 }
 
@@ -128,6 +155,7 @@ type hist struct {
 	batch   uint64
 	nseed   int
 	ids     map[string]uint64
+	recAt   map[crypto.Hash]bool // was the member's asset id recorded when the member was built (and validated)
 }
 
 func bigInt(v int64) *big.Int { return big.NewInt(v) }
@@ -202,7 +230,7 @@ func (h *hist) build(sp TxSpec) *builtTx {
 	b := &builtTx{spec: sp, sig: !sp.BadSig}
 	switch sp.Kind {
 	case "deposit":
-		info := as.info[sp.Info%2]
+		info := as.info[sp.Info%len(as.info)]
 		tx.AddDepositInput(&common.DepositData{Chain: info.Chain, AssetKey: info.AssetKey,
 			Transaction: sp.DepTx, Index: sp.DepIdx, Amount: common.NewIntegerFromString(sp.Amount)})
 		addOuts()
@@ -360,11 +388,14 @@ func (h *hist) findingRegion(members []*common.VersionedTransaction) (bool, stri
 	return false, ""
 }
 
-// infoRegion: the structural predicate of the second recorded finding.  True
-// when a member deposit that is not finalized yet carries an asset info that
-// differs from the recorded info of its asset id, or from the info of an
-// earlier such member deposit of the same (still unrecorded) asset id.
-func (h *hist) infoRegion(members []*common.VersionedTransaction) (bool, string) {
+// infoRegion: the first member deposit, not finalized yet, whose asset info
+// differs from the recorded info of its asset id or from that of an earlier
+// such member deposit of the same still unrecorded asset id.  It lies in the
+// region of the second recorded finding only if its asset id was UNRECORDED
+// when it was validated (validation then has nothing to compare with); if the
+// asset id was recorded, validation compares the info and must refuse it: a
+// write failure there is a different defect.
+func (h *hist) infoRegion(members []*common.VersionedTransaction) (conflict, known bool, why string) {
 	first := map[crypto.Hash]*common.Asset{}
 	for _, ver := range members {
 		d := ver.Inputs[0].Deposit
@@ -388,10 +419,11 @@ func (h *hist) infoRegion(members []*common.VersionedTransaction) (bool, string)
 			continue
 		}
 		if old.Chain != a.Chain || old.AssetKey != a.AssetKey {
-			return true, fmt.Sprintf("asset %s: deposit %s carries info (%s,%s), expected (%s,%s)", ver.Asset, ver.PayloadHash(), a.Chain, a.AssetKey, old.Chain, old.AssetKey)
+			return true, !h.recAt[ver.PayloadHash()], fmt.Sprintf("asset %s: deposit %s carries info (%s,%s), expected (%s,%s); asset recorded when the deposit was validated: %v",
+				ver.Asset, ver.PayloadHash(), a.Chain, a.AssetKey, old.Chain, old.AssetKey, h.recAt[ver.PayloadHash()])
 		}
 	}
-	return false, ""
+	return false, false, ""
 }
 
 // exec runs one step on the real node and store and records the observation.
@@ -413,6 +445,12 @@ func (h *hist) exec(sp StepSpec, cs func() Case) {
 			}
 		} else {
 			b = h.build(ts)
+			if h.recAt == nil {
+				h.recAt = map[crypto.Hash]bool{}
+			}
+			if info, _, err := f.store.ReadAssetWithBalance(b.ver.Asset); err == nil {
+				h.recAt[b.ver.PayloadHash()] = info != nil
+			}
 			if !sp.Direct {
 				if err := f.store.CacheStoreTransaction(b.ver); err != nil {
 					panic(err)
@@ -463,7 +501,7 @@ func (h *hist) exec(sp StepSpec, cs func() Case) {
 	if valid {
 		h.reached = true
 		region, why := h.findingRegion(members)
-		iregion, iwhy := h.infoRegion(members)
+		iconflict, iregion, iwhy := h.infoRegion(members)
 		var werr error
 		pan, pv := vh.Catch(func() { werr = f.store.WriteSnapshot(topo, []crypto.Hash{f.self}) })
 		obsWrite = vh.Some(resUnit(pan, werr))
@@ -472,8 +510,10 @@ func (h *hist) exec(sp StepSpec, cs func() Case) {
 			what := fmt.Sprintf("step %d: every member validated, WriteSnapshot failed (panic=%v value=%v err=%v)", step, pan, pv, werr)
 			if pan && region {
 				h.c.Fail("batch-deposits-sum-over-capacity", what+"; "+why, cs())
-			} else if !pan && iregion {
+			} else if !pan && iconflict && iregion {
 				h.c.Fail("batch-deposits-conflicting-asset-info", what+"; "+iwhy, cs())
+			} else if !pan && iconflict {
+				h.c.Fail("recorded-asset-info-mismatch-passed-validation", what+"; "+iwhy, cs())
 			} else {
 				h.c.Fail("validated-batch-write-failed", what, cs())
 			}
